@@ -4,6 +4,7 @@ pub mod c04;
 pub mod c05;
 pub mod c06;
 pub mod c16;
+pub mod c19;
 pub mod c20;
 
 use crate::Entry;
@@ -18,5 +19,6 @@ pub fn all() -> Vec<Entry> {
         Entry { scn: &c16::C16Uniformity, quick_runs: 48, thorough_runs: 600 },
         Entry { scn: &c06::C06Registry, quick_runs: 20_000, thorough_runs: 3_000_000 },
         Entry { scn: &c03::C03Key, quick_runs: 60_000, thorough_runs: 3_000_000 },
+        Entry { scn: &c19::C19Debugging, quick_runs: 20_000, thorough_runs: 2_000_000 },
     ]
 }
